@@ -285,6 +285,12 @@ def normal_kind(P, f, v, k, bb):
             return "call:slice::copy_from_slice"
     if k[5:] in ("Option::unwrap", "Result::unwrap"):
         return k.replace("unwrap", "expect")
+    if k == "assert:rem0" and t["k"] == "assert":
+        # `len % size` next to `chunks_exact(size)`: both abort exactly when size == 0
+        c = v.cx.operand(t["cond"])
+        sizes = [v.call_args(b2)[1] for (b2, t2, ci2) in f.calls() if ci2 and ci2.get("name") == "chunks_exact" and len(v.call_args(b2)) == 2]
+        if sizes and mentions(c, lambda s_: any(s_ == z for z in sizes)):
+            return "alias:call:slice::chunks_exact"
     return k
 
 
@@ -382,7 +388,13 @@ def run(ctx):
                 auto += 1
                 ctx.ok("PANIC-auto", f.key, "%s@serde-field-counter" % k)
                 continue
-        groups.setdefault((attributed(P, f), normal_kind(P, f, v, k, bb)), []).append((f.key, bb))
+        nk = normal_kind(P, f, v, k, bb)
+        if nk.startswith("alias:"):
+            # aborts under exactly the condition of another site of this function, which carries the review
+            auto += 1
+            ctx.ok("PANIC-auto", f.key, "%s@same-condition-as:%s" % (k, nk[6:]))
+            continue
+        groups.setdefault((attributed(P, f), nk), []).append((f.key, bb))
     used = set()
     for (fk, k), sites in sorted(groups.items()):
         f = P.fns[fk]
